@@ -5,7 +5,7 @@
 # it must report a VIOLATION. Prints one line per change and a summary; exit 1 if any change goes unnoticed.
 export GOFLAGS=-mod=mod GOPROXY=off GOSUMDB=off GOTOOLCHAIN=local
 cd /verif
-if [ "${1:-}" = all ]; then IDS=$(ls seeded); else IDS="c01-m5 c02-m5 c03-m6 c04-m6 c05-m4 c06-m5 c07-m5 c08-m6 c09-m5 c10-m5 c11-m5 c12-m6 c13-m5 c14-m6 c15-m5 c16-m5 c17-m5 c18-m5 c19-m5"; fi
+if [ "${1:-}" = all ]; then IDS=$(ls seeded); else IDS="c01-m5 c02-m5 c03-m6 c04-m6 c05-m4 c06-m5 c07-m5 c08-m6 c09-m5 c10-m5 c11-m5 c12-m6 c13-m5 c14-m6 c15-m5 c16-m5 c17-m5 c18-m5 c19-m5 c02-m7 c03-m8 c04-m7 c05-m7 c07-m7 c07-m9 c07-m10 c08-m8 c10-m8 c11-m9 c14-m9 c15-m9 c16-m8 c17-m7 c17-m8"; fi
 miss=0; n=0
 for SID in $IDS; do
   [ -f seeded/$SID/meta.json ] || continue
